@@ -2,6 +2,7 @@ import AthlibVerif.Props.C02
 import AthlibVerif.Lemmas.Ranking
 import AthlibVerif.Lemmas.Places
 import AthlibVerif.Lemmas.Best
+import AthlibVerif.Lemmas.Winner
 /-!
 # C03 — High jump: final placings follow the countback rule and the jump-off result
 
@@ -214,6 +215,50 @@ theorem C03_best_column_unique (c : Comp) (h : Props.C02.Reachable c) (j : Jumpe
 /-- the card is never longer than the list of heights -/
 theorem C03_card_within_heights (c : Comp) (h : Props.C02.Reachable c) (j : Jumper) (hj : j ∈ c.jumpers) :
     j.card.length ≤ c.heights.length := (allBest_reachable c h j hj).len
+
+/-! ## one winner -/
+
+theorem decided_reachable (c : Comp) (h : Props.C02.Reachable c) : Decided c := by
+  induction h with
+  | init => exact Decided_init
+  | step c op hr ih =>
+    exact step_Decided c op (placesInv_reachable c hr).1 (allBest_reachable c hr)
+      (Props.C02.inv_reachable c hr).1 ih
+
+/-- **A won or finished competition has exactly one athlete in first place** — the jump-off (or the countback) has
+    decided it; every call sequence from the empty competition. -/
+theorem C03_one_winner (c : Comp) (h : Props.C02.Reachable c) (hp : c.phase = .finished ∨ c.phase = .won) :
+    ∃ w ∈ c.jumpers, w.place = 1 ∧ ∀ k ∈ c.jumpers, k.place = 1 → k = w := by
+  have hu : (firsts c).length = 1 := by
+    rcases hp with hp | hp
+    · exact (decided_reachable c h).finished hp
+    · obtain ⟨_, _, _, hu⟩ := (decided_reachable c h).won hp; exact hu
+  match hf : firsts c, hu with
+  | [w], _ =>
+    have hw : w ∈ firsts c := by rw [hf]; simp
+    obtain ⟨hwj, hwp⟩ := List.mem_filter.1 hw
+    refine ⟨w, hwj, by simpa using hwp, ?_⟩
+    intro k hk hkp
+    have : k ∈ firsts c := List.mem_filter.2 ⟨hk, by simp [hkp]⟩
+    rw [hf] at this; simpa using this
+
+/-- while the competition is `won`, the winner is the one athlete still in, and has a clearance -/
+theorem C03_winner_still_in (c : Comp) (h : Props.C02.Reachable c) (hp : c.phase = .won) :
+    ∃ w, c.jumpers.filter (fun j => !j.eliminated) = [w] ∧ w.bestIdx.isSome = true ∧ w.place = 1 := by
+  obtain ⟨w, hal, hb, _⟩ := (decided_reachable c h).won hp
+  have hr : Ranked c := by
+    rcases (placesInv_reachable c h).2 with h1 | h1 | h1
+    · rw [hp] at h1; cases h1
+    · rw [hp] at h1; cases h1
+    · exact h1
+  have hf := sole_survivor_first c hr w hal hb
+  have hw : w ∈ firsts c := by rw [hf]; simp
+  exact ⟨w, hal, hb, by simpa using (List.mem_filter.1 hw).2⟩
+
+/-- **A drawn competition leaves a tie for first standing**: at least two athletes are in first place -/
+theorem C03_draw_is_a_tie (c : Comp) (h : Props.C02.Reachable c) (hp : c.phase = .drawn) :
+    2 ≤ (c.jumpers.filter (fun j => j.place == 1)).length :=
+  (decided_reachable c h).drawn hp
 
 /-! non-vacuity: a reachable finished competition with a tie for second (kernel-evaluated) -/
 example : let c := Props.C02.runOps [.add 1, .add 2, .add 3, .bar 105, .trial 1 .o, .trial 2 .x, .trial 2 .o, .trial 3 .x, .trial 3 .o,
